@@ -187,6 +187,8 @@ pub enum Build {
   TopDown(TaskId),
   /// Bottom-up build reporting `report` (in that order), then requiring `then` in the same session.
   BottomUp { report: Vec<ResId>, then: Vec<TaskId> },
+  /// External change made while the session is open (only in the long-session class; takes effect before the next build).
+  Change { res: ResId, val: Option<Val> },
 }
 
 #[derive(Serialize, Deserialize, Clone, Debug, PartialEq, Eq, Hash)]
@@ -271,6 +273,7 @@ pub fn pretty_history(h: &History) -> String {
           match b {
             Build::TopDown(t) => { let _ = write!(s, " require(T{})", t); }
             Build::BottomUp { report, then } => { let _ = write!(s, " bottom-up(report {:?}; then {:?})", report, then); }
+            Build::Change { res, val } => { let _ = write!(s, " [meanwhile r{} := {:?}]", res, val); }
           }
         }
         let _ = writeln!(s);
